@@ -141,6 +141,9 @@ def c08(res: CheckResult) -> None:
     random_unit(res, "random programs beyond the exhaustive bounds", list(F.fam_random(res.tier, rng, "snap")), ic)
     call_unit(res, "error factories reading OLD although the condition does not name it",
               [p for p in F.fam_err(res.tier, rng) if p["tag"] == "err-post-noold"], ic)
+    call_unit(res, "capture flavours on sync / async callables: plain, coroutine function, coroutine-returning, several "
+                   "snapshots of mixed flavours, captured values that are awaitable objects themselves",
+              [p for p in F.fam_async_placements(res.tier, rng) if p["tag"].startswith("async-cap")], ic)
     call_unit(res, "overlapping calls of the same callable (recursion) with equally named snapshots whose values "
                    "depend on the argument", list(F.fam_snap_rec(res.tier, rng)), ic)
     def_unit(res, "snapshot names along hierarchies: duplicates between bases, between base and override; "
